@@ -111,4 +111,40 @@ theorem blocks_iter_aux :
   all_goals (try (simp only [BlkIter]; done))
   all_goals (try grind [BlkIter, iter_nodes])
 
+/-- the chunk of a recorded block is a node list compiled at index 0 without a current loop -/
+def BlkNodes (ev : Event) : Prop :=
+  match ev with
+  | .blockDef _ c _ => ∃ body, c = nodesCode 0 none body
+  | _ => True
+
+theorem blocks_nodes_aux :
+    (∀ il d e, AllE BlkNodes (exprEvents il d e)) ∧
+    (∀ il d ns, AllE BlkNodes (nodesEvents il d ns)) ∧
+    (∀ il d n, AllE BlkNodes (nodeEvents il d n)) ∧
+    (∀ il d k, AllE BlkNodes (kwargsEvents il d k)) ∧
+    (∀ il d f, AllE BlkNodes (filtersEvents il d f)) ∧
+    (∀ il d o, AllE BlkNodes (optExprEvents il d o)) ∧
+    (∀ il d a, AllE BlkNodes (arrayItemsEvents il d a)) ∧
+    (∀ il d m, AllE BlkNodes (mapItemsEvents il d m)) := by
+  apply exprEvents.mutual_induct
+    (motive_1 := fun il d e => AllE BlkNodes (exprEvents il d e))
+    (motive_2 := fun il d ns => AllE BlkNodes (nodesEvents il d ns))
+    (motive_3 := fun il d n => AllE BlkNodes (nodeEvents il d n))
+    (motive_4 := fun il d k => AllE BlkNodes (kwargsEvents il d k))
+    (motive_5 := fun il d f => AllE BlkNodes (filtersEvents il d f))
+    (motive_6 := fun il d o => AllE BlkNodes (optExprEvents il d o))
+    (motive_7 := fun il d a => AllE BlkNodes (arrayItemsEvents il d a))
+    (motive_8 := fun il d m => AllE BlkNodes (mapItemsEvents il d m))
+  all_goals intros
+  all_goals simp only [exprEvents, nodesEvents, nodeEvents, kwargsEvents, filtersEvents,
+    optExprEvents, arrayItemsEvents, mapItemsEvents] at *
+  all_goals (try split)
+  all_goals (try simp_all (config := { zetaDelta := true }) only [allE_append, allE_cons, allE_nil,
+    and_true, true_and, and_self])
+  all_goals (try (simp only [BlkNodes]; done))
+  all_goals (try grind [BlkNodes])
+
+theorem blockChunks_are_nodes (ns : List Node) : AllE BlkNodes (nodesEvents false 0 ns) :=
+  blocks_nodes_aux.2.1 false 0 ns
+
 end Tera.Compiler
